@@ -111,60 +111,3 @@ def value_of(elem):
         return ''
     return elem.get_value()
 
-
-# ---- composites (C15): what a composite definition implies for a candidate composite ------------------------------------
-def comp_present(comp):
-    """some component holds data"""
-    if comp is None:
-        return False
-    for i in range(len(comp)):
-        if len(comp[i].get_value()) > 0:
-            return True
-    return False
-
-
-def comp_own_code(node, comp):
-    """the composite's own error: '2' a required composite without data, '5' data in a composite marked Not Used, '3' more
-    components than defined ('' = none);  `skips` tells whether the components are not looked at"""
-    if not comp_present(comp) and node.usage in ('N', 'S'):
-        return ''
-    if node.usage == 'R' and not comp_present(comp):
-        return '2'
-    if node.usage == 'N':
-        return '5'
-    if len(comp) > len(node.children):
-        return '3'
-    return ''
-
-
-def comp_visits_children(node, comp):
-    return not (not comp_present(comp) and node.usage in ('N', 'S')) and comp_own_code(node, comp) not in ('2', '5')
-
-
-def or8(a, b):
-    return (a[0] or b[0], a[1] or b[1], a[2] or b[2], a[3] or b[3], a[4] or b[4], a[5] or b[5], a[6] or b[6], a[7] or b[7])
-
-
-def comp_child_flags(node, comp):
-    """codes the component definitions imply, component by component (a component beyond the data is validated as missing)"""
-    out = (False, False, False, False, False, False, False, False)
-    for i in range(len(node.children)):
-        out = or8(out, expected_codes(node.children[i], comp[i] if i < len(comp) else None, []))
-    return out
-
-
-def comp_any_control(node, comp):
-    for i in range(min(len(node.children), len(comp))):
-        if has_control_char(value_of(comp[i])):
-            return True
-    return False
-
-
-def comp_children_wf(node):
-    for i in range(len(node.children)):
-        ch = node.children[i]
-        if not wf_element(ch, []):
-            return False
-        if ch.root.param.get('charset') not in ('B', 'E') or ch.root.icvn not in ('00401', '00501'):
-            return False
-    return node.usage in ('R', 'S', 'N')
